@@ -57,7 +57,18 @@ def bd_task(part, desc, bound):
 def build(tier, seed):
     from bounded import c16
     set_tier(tier)
-    tasks = [a_task(PROP, _binding), a_task(PROP, _rebase), a_task(PROP, _one), a_task(PROP, _fil), s_task(),
+    def _host():
+        from contracts import scoping
+        c = scoping.host_block(PROP)
+        c.search_fn = lambda: c16.search(("end_to_end",))
+        return c
+    _host.__name__ = "host_block"
+
+    def _href():
+        from contracts import links
+        return links.href_obligations(PROP, lambda: c16.search(("end_to_end",)))
+    tasks = [a_task(PROP, _binding), a_task(PROP, _rebase), a_task(PROP, _one), a_task(PROP, _fil), a_task(PROP, _host), s_task(),
+             Task(f"{PROP}.S.href", PROP, "FordLinkProcessor.convert_link", _href),
              bd_task("end_to_end", "A exported, B built against it through a relative local path: modules.json lists exactly A's modules and public entities with URLs that exist; every "
                      "link of B into A (use, extends, [[..]], call graph) exists there and is the page of the linked name; B's own module / type / procedure win name clashes", "1 project pair"),
              bd_task("broken", "missing, non-JSON, truncated, binary, mis-shaped external descriptions: B's run succeeds and writes its own pages", f"{len(c16.BROKEN)} descriptions"),
